@@ -16,6 +16,11 @@ use tokio_util::codec::FramedRead;
 
 mod decode;
 
+#[cfg(feature = "ezk-verif")]
+pub mod verif {
+    pub use super::decode::{DecodedMessage, StreamingDecoder};
+}
+
 /// Helper trait to implement the transport specific behavior of binding to an address
 #[async_trait::async_trait]
 pub trait StreamingListenerBuilder: Sized + Send + Sync + 'static {
